@@ -1,6 +1,31 @@
 package main
 
+import (
+	"fmt"
+	"strings"
+
+	"github.com/github/git-sizer/git"
+)
+
 // handleMore holds the commands added for the later properties.
 func handleMore(cmd string, a []string) (string, bool) {
+	switch cmd {
+	case "getconfig":
+		// getconfig <repo path hex> <prefix hex>
+		repo, err := git.NewRepositoryFromPath(string(arg(a[0])))
+		if err != nil {
+			return "ERR open " + strings.ReplaceAll(err.Error(), "\n", " "), true
+		}
+		cfg, err := repo.GetConfig(string(arg(a[1])))
+		if err != nil {
+			return "ERR", true
+		}
+		var sb strings.Builder
+		sb.WriteString("OK")
+		for _, e := range cfg.Entries {
+			fmt.Fprintf(&sb, " %s=%s", hx([]byte(e.Key)), hx([]byte(e.Value)))
+		}
+		return sb.String(), true
+	}
 	return "", false
 }
